@@ -4,7 +4,8 @@
    wf_area a  :=  1 <= width, 1 <= height, xmin <> xmax, ymin <> ymax   (flipped areas, ymin > ymax, are included). *)
 From Coq Require Import Reals ZArith List Lia Lra Bool PrimFloat.
 From PR Require Import Base.Num Base.RNum Base.F64 Model.Grid Model.C01_Area Model.C01_Cache Gen.GenC01
-     Proofs.Grid_real Proofs.C01_grid Proofs.C01_index Proofs.C01_lonlat Proofs.C01_gen Proofs.C01_cache.
+     Proofs.Grid_real Proofs.C01_grid Proofs.C01_index Proofs.C01_lonlat Proofs.C01_gen Proofs.C01_cache Proofs.C01_imp.
+From PR Require Import Base.Imp Model.C01_ImpObj Gen.GenC01imp.
 Import ListNotations.
 Open Scope R_scope.
 
@@ -302,3 +303,52 @@ Theorem C01_joint_name_without_origin_refuted :
   c01_task_value F64 tw <> c01_task_value F64 te.
 Proof. exact c01_name_without_origin_refuted. Qed.
 Print Assumptions C01_joint_name_without_origin_refuted.
+
+(* CODE IS MODEL.  AreaDefinition.get_lonlats and _get_proj_vectors as REGENERATED from the source by the imperative front end
+   (coq/Gen/GenC01imp.v; self is a record with the lons / lats fields, the method may assign them), specialised to the numpy
+   path (chunks=None, nprocs unset); the numeric parts are abstract functions (what is pattern-trusted is listed in the note
+   of tools/gen_specs/GenC01imp.json).  One call of the generated get_lonlats is the clean step c01_obj_get_lonlats:
+   served from the cache (sliced) when self.lons is set, otherwise computed and stored only when cache and data_slice is None *)
+Theorem C01_imp_get_lonlats_code_is_model : forall (G SL : Type) (g0 : G) (proj_coords : areaobj G -> option SL -> G * G)
+    (invproj : areaobj G -> G * G -> G * G) (slice_arr : G -> SL -> G) self nprocs sl cache dtype chunks,
+  c01_lonlats_outcome (imp_get_lonlats g0 proj_coords invproj slice_arr self nprocs sl cache dtype chunks) =
+  c01_obj_get_lonlats proj_coords invproj slice_arr self sl cache.
+Proof. intros. apply imp_get_lonlats_code_is_model. Qed.
+Print Assumptions C01_imp_get_lonlats_code_is_model.
+(* the generated _get_proj_vectors leaves the object unchanged and returns the freshly computed vectors: no memo *)
+Theorem C01_imp_get_proj_vectors_code_is_model : forall (G : Type) (g0 : G) (proj_vectors : areaobj G -> G * G) self dtype chunks,
+  c01_vectors_outcome (imp_get_proj_vectors g0 proj_vectors self dtype chunks) =
+  Some (self, (fst (proj_vectors self), snd (proj_vectors self))).
+Proof. intros. apply imp_get_proj_vectors_code_is_model. Qed.
+Print Assumptions C01_imp_get_proj_vectors_code_is_model.
+
+(* HISTORIES THROUGH THE GENERATED METHODS.  On a fresh object (self.lons is None), for ANY list of calls (data_slice, cache
+   flag), every call of the generated get_lonlats returns what a fresh object computes for that data_slice, provided
+   H_slice holds at the slices asked for (slicing the lon/lats of the whole grid = the lon/lats of the slice).  The generated
+   method is a function of values: arrays it returns cannot alias the object, which is the reading `x.copy()` is trusted for *)
+Theorem C01_imp_history_stateless : forall (G SL : Type) (g0 : G) (proj_coords : areaobj G -> option SL -> G * G)
+    (invproj : areaobj G -> G * G -> G * G) (slice_arr : G -> SL -> G) (self0 : areaobj G) (calls : list (option SL * bool)),
+  ao_lons self0 = None ->
+  (forall sl cache, In (Some sl, cache) calls -> c01_H_slice_at proj_coords invproj slice_arr self0 sl) ->
+  imp_lonlats_history g0 proj_coords invproj slice_arr self0 calls =
+  map (fun c => Some (c01_fresh_value proj_coords invproj self0 (fst c))) calls.
+Proof. intros. apply imp_lonlats_history_stateless; assumption. Qed.
+Print Assumptions C01_imp_history_stateless.
+Theorem C01_imp_vectors_history_stateless : forall (G : Type) (g0 : G) (proj_vectors : areaobj G -> G * G) self n,
+  imp_vectors_history g0 proj_vectors self n = repeat (Some (fst (proj_vectors self), snd (proj_vectors self))) n.
+Proof. intros. apply imp_vectors_history_stateless. Qed.
+Print Assumptions C01_imp_vectors_history_stateless.
+(* H_slice is not an assumption about the code left open: for the accessors of Model/C01_Area.v (coordinates of any
+   in-range selection, element-wise inverse projection by any oracle, numpy selection) it holds for every in-range selection *)
+Theorem C01_imp_H_slice_holds : forall (T : Type) (OP : ops T) (invT : T * T -> T * T) (a : area T) self rows cols,
+  (0 <= width a)%Z -> (0 <= height a)%Z -> c01_in_range (height a) rows -> c01_in_range (width a) cols ->
+  c01_H_slice_at (c01_pc_inst OP a) (c01_inv_inst invT) (c01_slice_inst OP) self (rows, cols).
+Proof. intros T OP invT a self rows cols Hw Hh Hr Hc. apply c01_H_slice_inst; assumption. Qed.
+Print Assumptions C01_imp_H_slice_holds.
+Example C01_imp_history_ex :
+  let self0 := mk_areaobj (@None (list (list Z))) None 1%Z tt tt in
+  ao_lons self0 = None /\
+  imp_lonlats_history [] (fun _ sl => match sl with None => ([[1; 2]], [[3; 4]]) | Some _ => ([[2]], [[4]]) end)%Z (fun _ xy => xy)
+                      (fun g (_ : unit) => map (fun r => tl r) g) self0 [(Some tt, true); (None, true); (Some tt, false); (None, false)]
+  = [Some ([[2]], [[4]]); Some ([[1; 2]], [[3; 4]]); Some ([[2]], [[4]]); Some ([[1; 2]], [[3; 4]])]%Z.
+Proof. split; [reflexivity | vm_compute; reflexivity]. Qed.
